@@ -136,6 +136,8 @@ def run(check: Check):
   check.floor('R-SLICE', 'k-bounded slices', n_slice, 2)
   check.floor('R-FOLD', 'membership folds', n_fold, 1)
   check.floor('R-PAIR', 'sequence metrics using get_target_weight', n_pair, 8)
+  from fjsa.props import c05
+  c05.static_metric_fields(check)
   _get_target_weight(check)
   _accuracy(check)
   _confusion(check)
